@@ -345,6 +345,21 @@ pub open spec fn des_int_literal(d: Option<&synast::Designator>) -> Option<u128>
         _ => None,
     }
 }
+/// C09: the width / register length written after a type keyword as an integer literal (`int[32]`, `qubit[4]`), if any
+pub open spec fn lit_width(d: Option<synast::Designator>) -> Option<u128> { match d { Some(x) => des_int_literal(Some(&x)), None => None } }
+pub open spec fn has_designator(d: Option<synast::Designator>) -> bool { match d { Some(x) => x.sp_expr() is Some, None => false } }
+/// the scalar kinds whose type carries the width / length written
+pub open spec fn kind_takes_width(k: synast::ScalarTypeKind) -> bool {
+    k is Angle || k is Bit || k is Float || k is Int || k is UInt || k is Qubit
+}
+/// C09: the width / length recorded is the one written: none when none is written, the literal when a literal is written
+pub open spec fn width_as_written(st: synast::ScalarType, r: Type) -> bool {
+    (st.sp_scalar_type() is None && kind_takes_width(st.sp_kind())) ==> {
+        &&& (!has_designator(st.sp_designator()) ==> written_width(r) is None)
+        &&& ((lit_width(st.sp_designator()) is Some && !co_width_truncation(lit_width(st.sp_designator())->Some_0))
+                ==> written_width(r) == Some(lit_width(st.sp_designator())->Some_0 as u32))
+    }
+}
 /// KF C09-nonconst-designator-silent
 pub open spec fn co_nonconst_designator() -> bool { true }
 
